@@ -1,8 +1,65 @@
 import ApolloModel.Model.Proto
-open Apollo Apollo.Proto
+import ApolloModel.Model.SchemaSerialize
+import Driver.D13
+open Apollo Apollo.Proto Apollo.SchemaBuild Apollo.SchemaSerialize
 namespace Driver
 
-/-- streams of property C12 are named `c12.<name>` -/
-def c12 (_stream : String) (_fs : List String) : String := "unknown-stream"
+/-
+stream of property C12 (written by harness/src/p12.rs)
+  c12.roundtrip  <sources, encoded as for c13.schema>
+answer: the definitions `Schema::to_ast` produces (names only) and the order-sensitive dump of the schema
+re-built from them (extension identities numbered by first appearance), plus its number of build errors.
+-/
+
+def tagStr : DefTag → String
+  | .schemaDef => "S" | .schemaExt => "X" | .directiveDef => "D"
+  | .typeDef k => "T" ++ kindChar k | .typeExt k => "E" ++ kindChar k
+  | .operation => "O" | .fragment => "F"
+
+def itemNames (is : List Item) : String :=
+  ",".intercalate (is.map (fun i => if i.target.isEmpty then i.name else i.name ++ "=" ++ i.target))
+
+def defStr (d : Def) : String :=
+  tagStr d.tag ++ " " ++ d.name ++ "{d:" ++ itemNames d.directives ++ "}{i:" ++ itemNames d.interfaces ++ "}{m:"
+    ++ itemNames d.members ++ "}"
+
+def ordOrigin (seen : List Pos) : Option Pos → String
+  | none => "d"
+  | some p => "e" ++ toString (seen.findIdx (· == p))
+
+def ordComp (seen : List Pos) (c : Comp) : String :=
+  (if c.target.isEmpty then c.name else c.target) ++ "^" ++ ordOrigin seen c.origin
+
+def ordComps (seen : List Pos) (cs : List Comp) : String := ",".intercalate (cs.map (ordComp seen))
+
+/-- the dump of harness `dump_schema(…, Mode::Ordinal)` -/
+def ordinalDump (r : Builder) : String :=
+  let ts := r.types.filter (fun t => !(t.builtin && bodyEmpty t.body))
+  let roots := rootsInOrder r.schemaDef
+  let seen := firstOcc ((ts.flatMap (fun t => extOrigins t.body)) ++ r.schemaDef.body.directives.filterMap (·.origin)
+    ++ roots.filterMap (·.origin))
+  let root (op : String) : String :=
+    match r.schemaDef.body.members.find? (fun c => c.name == op) with
+    | some c => c.target ++ "^" ++ ordOrigin seen c.origin
+    | none => "-"
+  "T[" ++ " ".intercalate (ts.map (fun t => t.name ++ "/" ++ kindChar t.kind ++ "/" ++ (if t.builtin then "-" else "_")
+      ++ "{d:" ++ ordComps seen t.body.directives ++ "}{i:" ++ ordComps seen t.body.interfaces ++ "}{m:"
+      ++ ordComps seen t.body.members ++ "}"))
+    ++ "]S[_{d:" ++ ordComps seen r.schemaDef.body.directives ++ "}{q:" ++ root "query" ++ "}{m:" ++ root "mutation"
+    ++ "}{s:" ++ root "subscription" ++ "}]D["
+    ++ ",".intercalate ((r.directiveDefs.filter (fun d => !d.builtin)).map (fun d => d.name)) ++ "]"
+
+def c12 (stream : String) (fs : List String) : String :=
+  match stream, fs with
+  | "c12.roundtrip", [srcs] =>
+    match sourcesOf (String.ofList (decodeField srcs)) with
+    | some srcs =>
+      let s := build (Builder.new false false) srcs
+      if !s.errors.isEmpty then "build-errors"
+      else
+        let r := reparse s
+        "AST[" ++ ";".intercalate ((toAst s).map defStr) ++ "]RT:" ++ ordinalDump r ++ "E[" ++ toString r.errors.length ++ "]"
+    | none => "bad-case"
+  | _, _ => "unknown-stream"
 
 end Driver
